@@ -198,7 +198,7 @@ func runC18(c *core.Ctx) core.Meta {
 				if _, ok := in.(*ssa.Return); ok {
 					rets++
 				}
-				if bo, ok := in.(*ssa.BinOp); ok && bo.Op.String() == "==" {
+				if bo, ok := in.(*ssa.BinOp); ok && (bo.Op.String() == "==" || bo.Op.String() == "<=") {
 					if z, ok := core.ConstInt(bo.Y); ok && z == 0 {
 						pv := prov.Of(bo.X)
 						if m := regexp.MustCompile(`^len\(recv\.(transactionsFrom\w+)\)$`).FindStringSubmatch(pv); m != nil {
@@ -332,7 +332,7 @@ func isConjunctionOfEmptiness(fn *ssa.Function, prov *core.Prov) bool {
 	g := core.BuildGraph(fn, 0, nil)
 	isLenTest := func(v ssa.Value) (string, bool) {
 		bo, ok := v.(*ssa.BinOp)
-		if !ok || bo.Op.String() != "==" {
+		if !ok || (bo.Op.String() != "==" && bo.Op.String() != "<=") {
 			return "", false
 		}
 		if z, ok := core.ConstInt(bo.Y); !ok || z != 0 {
